@@ -158,6 +158,17 @@ def run(ctx):
     C07.member_store_checks(ctx, "C14.R7")
     ctx.floor("C14.R7", 20)
     ctx.floor("C14.R6", 6)
+    # RawCopy._build reads back what was written by seeking to offset1: on every stream wrapper of the package a seek only moves the
+    # position -- it never drops, shifts or rewrites buffered bytes (what is then read back must be what was written)
+    n8 = 0
+    for wcls, allowed in (("RebufferedBytesIO", {"offset"}), ("RestreamedBytesIO", set()), ("BytesIOWithOffsets", set())):
+        if wcls not in M.classes or "seek" not in M.cls(wcls).methods:
+            continue
+        fi8, paths8 = own_method_paths(ctx, wcls, "seek")
+        written = {e["attr"] for p in paths8 for e in p.events if e.kind == "SELFWRITE"} | {"<call %s>" % e["method"] for p in paths8 for e in p.events if e.kind == "SELFCALL"}
+        n8 += 1
+        ctx.ob("C14.R8", fi8, written <= allowed, "%s.seek only moves the position (state written or helpers called: %s)" % (wcls, sorted(map(str, written)) or "none"), key="%s seek is position-only" % wcls)
+    ctx.floor("C14.R8", 3)
 
     # positive control: length = offset2
     ctl = control_model(
